@@ -177,13 +177,21 @@ FLIP = {'>': '<', '>=': '<=', '<': '<', '<=': '<='}
 NEG = {'<': '>=', '<=': '>', '>': '<=', '>=': '<', '==': '!=', '!=': '=='}
 
 
+def _is_ptrish(t):
+    t = strip_casts(t)
+    if not isinstance(t, dict):
+        return False
+    ty = str(t.get('t', ''))
+    return ty.endswith('*') or bool(t.get('lptr'))
+
+
 class Env:
     """values of locals (and overwritten parameters / fields) along one path"""
 
-    def __init__(self, fn, roles=None, inline=None):
+    def __init__(self, fn, roles=None, inline=None, fields=None):
         self.fn = fn
         self.vals = {}          # did -> term
-        self.fields = {}        # canonical field path -> term
+        self.fields = fields if fields is not None else {}   # canonical (receiver-substituted) field path -> term
         self.roles = roles or {}
         self.inline = inline    # callable(term) -> term or None (pure accessor inlining)
 
@@ -200,8 +208,10 @@ class Env:
             rhs = self.subst(e['rhs'])
             op = e['op']
             if op != '=':
-                rhs = {'k': 'bin', 'op': op[:-1], 'l': self.subst(lhs), 'r': rhs}
+                rhs = {'k': 'bin', 'op': op[:-1], 'l': self.subst(lhs), 'r': rhs, 'lptr': _is_ptrish(self.subst(lhs))}
             self._store(lhs, rhs)
+        elif e['ev'] == 'init' and e.get('field') and not e.get('implicit'):
+            self._store({'k': 'member', 'name': e['field'], 'base': {'k': 'this'}}, self.subst(e['e']))
         elif e['ev'] == 'expr':
             t = e.get('e')
             # user-defined assignment operator: x = y (including move assignment from a temporary)
@@ -210,17 +220,86 @@ class Env:
                 self._store(strip_casts(t['recv']), self.subst(strip_casts(t['args'][0])))
         elif e['ev'] == 'incdec':
             lhs = e['lhs']
-            rhs = {'k': 'bin', 'op': '+' if e['op'] == '++' else '-', 'l': self.subst(lhs), 'r': {'k': 'lit', 'v': 1}}
+            rhs = {'k': 'bin', 'op': '+' if e['op'] == '++' else '-', 'l': self.subst(lhs), 'r': {'k': 'lit', 'v': 1},
+                   'lptr': _is_ptrish(self.subst(lhs))}
             self._store(lhs, rhs)
 
+    def _field_of_construct(self, cons, field, depth=0):
+        ctor = self.db.fns.get(cons.get('key'))
+        if ctor is None or depth > 3:
+            return None
+        args = cons.get('args', [])
+        binds = {}
+        for prm, a in zip(ctor.params, args):
+            binds[prm['did']] = a
+
+        def rebind(x):
+            if not isinstance(x, dict):
+                return x
+            if x.get('k') == 'param' and x.get('did') in binds:
+                return binds[x['did']]
+            out = {}
+            for kk, vv in x.items():
+                if isinstance(vv, dict):
+                    out[kk] = rebind(vv)
+                elif isinstance(vv, list):
+                    out[kk] = [rebind(y) if isinstance(y, dict) else y for y in vv]
+                else:
+                    out[kk] = vv
+            return out
+        for e in ctor.events():
+            if e['ev'] == 'init' and e.get('field') == field and not e.get('implicit'):
+                return rebind(e['e'])
+            if e['ev'] == 'init' and e.get('delegating') and isinstance(e.get('e'), dict) and e['e'].get('k') == 'construct':
+                return self._field_of_construct(rebind(e['e']), field, depth + 1)
+        return None
+
+    def subst_path(self, t):
+        """evaluate the *object path* of an lvalue: reference locals, parameters bound by inlining and `this` are
+        replaced, but stored field values are not (the path names a storage location, not its content)"""
+        t = strip_casts(t)
+        if not isinstance(t, dict):
+            return t
+        k = t.get('k')
+        if k in ('local', 'param'):
+            v = self.vals.get(t.get('did'))
+            if v is not None and (str(t.get('t', '')).endswith('&') or str(t.get('t', '')).endswith('*') or k == 'param'):
+                return v
+            return t
+        if k == 'this' and '__this__' in self.vals:
+            return {'k': 'un', 'op': '&', 'e': self.vals['__this__']}
+        if k == 'member':
+            return {'k': 'member', 'name': t['name'], 'base': self.subst_path(t.get('base'))}
+        if k == 'un' and t['op'] in ('*', '&'):
+            return {'k': 'un', 'op': t['op'], 'e': self.subst_path(t['e'])}
+        if k == 'bin' and t.get('op') == '[]':
+            return {'k': 'bin', 'op': '[]', 'l': self.subst_path(t['l']), 'r': self.subst(t['r'])}
+        return self.subst(t)
+
+    def lvalue_key(self, lhs):
+        """canonical name of the storage location"""
+        return canon(self.subst_path(lhs))
+
+    def subst_lvalue(self, t):
+        return self.subst_path(t)
+
     def _store(self, lhs, val):
-        if lhs.get('k') in ('local', 'param'):
+        lhs = strip_casts(lhs)
+        if lhs.get('k') in ('local', 'param') and lhs.get('did') is not None and not str(lhs.get('t', '')).endswith('&'):
+            self.vals[lhs['did']] = val
+        elif lhs.get('k') in ('local', 'param') and lhs.get('did') in self.vals and str(lhs.get('t', '')).endswith('&'):
+            # assignment through a reference local: store into what it refers to
+            self._put(self.lvalue_key(self.vals[lhs['did']]), val)
+        elif lhs.get('k') in ('local', 'param'):
             self.vals[lhs['did']] = val
         else:
-            self.fields[canon(self.subst_keep_root(lhs))] = val
+            self._put(self.lvalue_key(lhs), val)
 
-    def subst_keep_root(self, t):
-        return t
+    def _put(self, key, val):
+        # assigning a whole object invalidates what was known about its parts
+        for k in [k for k in self.fields if k.startswith(key + '.') or k.startswith(key + '[')]:
+            del self.fields[k]
+        self.fields[key] = val
 
     def subst(self, t):
         """replace locals / overwritten params by their current symbolic value"""
@@ -237,9 +316,15 @@ class Env:
             # `this` is a pointer, the receiver term is the object
             return {'k': 'un', 'op': '&', 'e': r}
         if k == 'member':
-            key = canon(t)
+            key = self.lvalue_key(t)
             if key in self.fields:
                 return self.fields[key]
+            # field of an object that was just (re)constructed on this path: take the constructor's initialiser
+            base = strip_casts(self.subst(t.get('base')))
+            if isinstance(base, dict) and base.get('k') == 'construct' and getattr(self, 'db', None) is not None:
+                v = self._field_of_construct(base, t['name'])
+                if v is not None:
+                    return v
         out = {}
         for kk, vv in t.items():
             if isinstance(vv, dict):
@@ -293,6 +378,9 @@ def canon(t, roles=None):
         return t['s']
     if k == 'member':
         b = strip_casts(t.get('base'))
+        # p->f, (*p).f, (&x)->f all name the field f of the object: address-of / dereference pairs are dropped
+        while isinstance(b, dict) and b.get('k') == 'un' and b['op'] in ('&', '*'):
+            b = strip_casts(b['e'])
         if isinstance(b, dict) and b.get('k') == 'this':
             return 'this.' + t['name']
         if isinstance(b, dict) and b.get('k') == 'un' and b['op'] == '*' and strip_casts(b['e']).get('k') == 'this':
